@@ -321,7 +321,7 @@ macro_rules! strict_ops {
                         let (i, c) = d_arr(&a[0])?.sparse_bincount();
                         e_pair(e_arr(&i), e_arr(&c))
                     }
-                    "a_cc" => {
+                    "a_cc" | "a_cc_uf" => {
                         let (c, k) = <$Arr<usize> as NaturalArray<K>>::connected_components(
                             &d_arr(&a[0])?,
                             &d_arr(&a[1])?,
